@@ -161,8 +161,42 @@ func runCheck(eng *Engine, prop, tier string, verbose, noReplay bool) int {
 		results = append(results, r)
 		fns = append(fns, fnInfo{k, r.Where, r.Instrs, r.Paths})
 	}
+	// dependency closure: the proofs above rely on the contracts of the functions they call (in code or in specs); every such
+	// contract that is not an assumed one is verified here too, so that a change inside a callee that breaks the callee's
+	// contract fails THIS property's check as well (not only the check of the property the callee is tagged with)
+	done := map[string]bool{}
+	for _, k := range keys {
+		done[k] = true
+	}
+	var deps []string
+	for {
+		var more []string
+		for _, k := range eng.cs.sortedKeys() {
+			c := eng.cs.Funcs[k]
+			if c.used && !c.Trusted && !done[k] {
+				if fn := eng.findFunc(k); fn != nil && fn.Blocks != nil {
+					more = append(more, k)
+				}
+			}
+		}
+		if len(more) == 0 {
+			break
+		}
+		for _, k := range more {
+			done[k] = true
+			tf := time.Now()
+			r := eng.verifyFunc(k, eng.cs.Funcs[k], -1)
+			if verbose {
+				fmt.Printf("  gen %-70s %.2fs paths=%d obs=%d (dependency)\n", k, time.Since(tf).Seconds(), r.Paths, len(r.Obs))
+			}
+			results = append(results, r)
+			fns = append(fns, fnInfo{k, r.Where, r.Instrs, r.Paths})
+			deps = append(deps, k)
+		}
+	}
+	usedLemma := func(l *Contract) bool { return l.used }
 	for _, l := range eng.cs.Lemmas {
-		if hasProp(l.Props, prop) {
+		if hasProp(l.Props, prop) || usedLemma(l) {
 			tf := time.Now()
 			r := eng.verifyLemma(l, -1)
 			if verbose {
@@ -173,7 +207,7 @@ func runCheck(eng *Engine, prop, tier string, verbose, noReplay bool) int {
 		}
 	}
 	for _, fl := range eng.cs.FloatLemmas {
-		if hasProp(fl.Props, prop) {
+		if hasProp(fl.Props, prop) || fl.used {
 			r := eng.verifyFloatLemma(fl, timeout)
 			results = append(results, r)
 			fns = append(fns, fnInfo{r.Key, r.Where, 0, 0})
@@ -332,6 +366,7 @@ func runCheck(eng *Engine, prop, tier string, verbose, noReplay bool) int {
 			"checker_cmd":              fmt.Sprintf("bin/govc check %s --tier %s --repo %s", prop, tier, eng.repo),
 			"trusted_base":             []string{"govc VC generator", "go/ssa (x/tools v0.29.0)", "z3 4.8.12", "z3 5.1.0 (z3-new)", "cvc5 1.0.3", "assumed contracts listed under assumptions"},
 			"functions_under_contract": fns,
+			"dependencies_verified":    deps,
 			"obligation_records":       perObl,
 			"by_backend":               bySolver,
 			"solver_time":              solverTimes,
